@@ -135,7 +135,8 @@ def instances(tier):
     for degs, ms in surf:
         for rational in (False, True):
             sp = spec('surface', degs, ms, rational=rational)
-            add('spanfunc', h_spanfunc, sp, timeout=1800, order=1)
+            if not (quick and rational and sum(degs) > 3):
+                add('spanfunc', h_spanfunc, sp, timeout=1800, order=1)
             if not rational or sum(degs) <= 3:
                 add('affine', h_affine, sp, timeout=2400, order=1)
         add('evaluator', h_evaluator, spec('surface', degs, ms, rational=False), timeout=1800, order=max(degs) + 1)
